@@ -16,49 +16,55 @@ theorem inLang_star_cons {F : Follow} {p : Abs} {l l' : List Sym} (h1 : InLang F
   · intro x hx
     rcases mem_seq_l.mp hx with hx | ⟨_, hx⟩ <;> exact hx
 
+theorem ann_star_cons {hd : HData} {F : Follow} {p : Abs} {c c' : List Chunk} (h1 : Ann hd F p c)
+    (h2 : Ann hd F ⟨true, p.f, p.l⟩ c') (hc : ∀ q ∈ cross p p, q ∈ F) : Ann hd F ⟨true, p.f, p.l⟩ (c ++ c') := by
+  obtain ⟨l1, e1, g1⟩ := h1
+  obtain ⟨l2, e2, g2⟩ := h2
+  exact ⟨l1 ++ l2, by simp [syms, List.map_append] at e1 e2 ⊢; rw [e1, e2], inLang_star_cons g1 g2 hc⟩
+
 section
 variable {cfg : Cfg σ} {cx : Ctx} (hc : TypedCfg cfg cx) (F : Follow)
 include hc
 
 /-- JoinAttr: `item (sep item)*` -/
 theorem join_typed {wn : WalkFn σ} (hwn : NodeOK cfg cx F wn) (path : Path) (src : Src) (k : String)
-    (as : List (String × Val)) (hw : wfVal cx (.node k as) = true) (pos : Option Int) (sep : List Rule) (ks : List String)
-    (hib : (kindsRes cx ks).bad = false) (hsb : (absRules cx k sep).bad = false)
-    (hsn : ∀ p ∈ (absRules cx k sep).need, p ∈ F)
-    (hc1 : ∀ p ∈ cross (absRules cx k sep).abs (kindsRes cx ks).abs, p ∈ F)
-    (hc2 : ∀ p ∈ cross ((absRules cx k sep).abs.seq (kindsRes cx ks).abs) ((absRules cx k sep).abs.seq (kindsRes cx ks).abs), p ∈ F)
-    (hc3 : ∀ p ∈ cross (kindsRes cx ks).abs ((absRules cx k sep).abs.seq (kindsRes cx ks).abs), p ∈ F)
+    (as : List (String × Val)) (hw : wfVal cx (.node k as) = true) (pos : Option Int) (sep : List Rule) (sp : Nat) (ks : List String)
+    (hib : (kindsRes cx ks).bad = false) (hsb : (absRules cx k sp sep).bad = false)
+    (hsn : ∀ p ∈ (absRules cx k sp sep).need, p ∈ F)
+    (hc1 : ∀ p ∈ cross (absRules cx k sp sep).abs (kindsRes cx ks).abs, p ∈ F)
+    (hc2 : ∀ p ∈ cross ((absRules cx k sp sep).abs.seq (kindsRes cx ks).abs) ((absRules cx k sp sep).abs.seq (kindsRes cx ks).abs), p ∈ F)
+    (hc3 : ∀ p ∈ cross (kindsRes cx ks).abs ((absRules cx k sp sep).abs.seq (kindsRes cx ks).abs), p ∈ F)
     (items : List (Step × Val)) (hit : ItemsOK cx ks items) (s : σ) (cs : List Chunk) (s' : σ)
     (h : seqM (runAct cfg wn path src (.node k as) pos sep) (joinActs items) s = .ok (cs, s')) :
-    InLang F (((kindsRes cx ks).abs.seq ⟨true, ((absRules cx k sep).abs.seq (kindsRes cx ks).abs).f,
-      ((absRules cx k sep).abs.seq (kindsRes cx ks).abs).l⟩).opt) (syms cfg.hd cs) := by
+    Ann cfg.hd F (((kindsRes cx ks).abs.seq ⟨true, ((absRules cx k sp sep).abs.seq (kindsRes cx ks).abs).f,
+      ((absRules cx k sp sep).abs.seq (kindsRes cx ks).abs).l⟩).opt) cs := by
   -- one item
   have hitem : ∀ (q : Step × Val), (∃ k' as', q.2 = .node k' as' ∧ k' ∈ ks ∧ wfVal cx (.node k' as') = true) →
       ∀ s cs s', runAct cfg wn path src (.node k as) pos sep (.item q.1 q.2) s = .ok (cs, s') →
-      InLang F (kindsRes cx ks).abs (syms cfg.hd cs) := by
+      Ann cfg.hd F (kindsRes cx ks).abs cs := by
     intro q ⟨k', as', hq, hk', hw'⟩ s cs s' hr
     simp only [runAct, hq, walkValue] at hr
     obtain ⟨a, g1, g2⟩ := hwn _ _ k' as' Option.none _ _ _ hw' hr
     obtain ⟨a', g3, g4⟩ := kindsRes_mem cx ks hib k' hk'
     rw [g1] at g3; cases g3
-    exact inLang_le g2 g4
+    exact ann_le g2 g4
   have hsep : ∀ s cs s', runAct cfg wn path src (.node k as) pos sep .sep s = .ok (cs, s') →
-      InLang F (absRules cx k sep).abs (syms cfg.hd cs) := by
+      Ann cfg.hd F (absRules cx k sp sep).abs cs := by
     intro s cs s' hr
     simp only [runAct] at hr
-    exact hwn _ _ k as (some sep) _ _ _ hw hr hsb hsn
+    exact hwn _ _ k as (some sep) _ _ _ hw hr sp hsb hsn
   -- the tail `(sep item)*`
   have htail : ∀ (rest : List (Step × Val)), ItemsOK cx ks rest → ∀ s cs s',
       seqM (runAct cfg wn path src (.node k as) pos sep) (rest.flatMap (fun p => [JAct.sep, JAct.item p.1 p.2])) s = .ok (cs, s') →
-      InLang F ⟨true, ((absRules cx k sep).abs.seq (kindsRes cx ks).abs).f,
-        ((absRules cx k sep).abs.seq (kindsRes cx ks).abs).l⟩ (syms cfg.hd cs) := by
+      Ann cfg.hd F ⟨true, ((absRules cx k sp sep).abs.seq (kindsRes cx ks).abs).f,
+        ((absRules cx k sp sep).abs.seq (kindsRes cx ks).abs).l⟩ cs := by
     intro rest
     induction rest with
     | nil =>
       intro _ s cs s' hr
       simp only [List.flatMap_nil] at hr
       rw [seqM_nil_ok] at hr
-      rw [hr.1]; exact inLang_nil F rfl
+      rw [hr.1]; exact ann_nil cfg.hd F rfl
     | cons y ys ih =>
       intro hys s cs s' hr
       simp only [List.flatMap_cons, List.cons_append, List.nil_append] at hr
@@ -69,14 +75,14 @@ theorem join_typed {wn : WalkFn σ} (hwn : NodeOK cfg cx F wn) (path : Path) (sr
       have e1 := hsep s c1 s1 h1
       have e3 := hitem y (hys y (by simp)) s1 c3 s3 h3
       have e4 := ih (fun q hq => hys q (by simp [hq])) s3 c4 s' h4
-      have e13 := inLang_append e1 e3 hc1
-      rw [syms_append, syms_append, ← List.append_assoc]
-      exact inLang_star_cons e13 e4 hc2
+      have e13 := ann_append e1 e3 hc1
+      rw [← List.append_assoc]
+      exact ann_star_cons e13 e4 hc2
   cases items with
   | nil =>
     simp only [joinActs] at h
     rw [seqM_nil_ok] at h
-    rw [h.1]; exact inLang_nil F rfl
+    rw [h.1]; exact ann_nil cfg.hd F rfl
   | cons x rest =>
     obtain ⟨st, v⟩ := x
     simp only [joinActs] at h
@@ -84,8 +90,7 @@ theorem join_typed {wn : WalkFn σ} (hwn : NodeOK cfg cx F wn) (path : Path) (sr
     obtain ⟨c1, s1, c2, h1, h2, rfl⟩ := h
     have e1 := hitem (st, v) (hit (st, v) (by simp)) s c1 s1 h1
     have e2 := htail rest (fun q hq => hit q (by simp [hq])) s1 c2 s' h2
-    rw [syms_append]
-    exact inLang_opt (inLang_append e1 e2 hc3)
+    exact ann_opt (ann_append e1 e2 hc3)
 
 omit hc in
 theorem flatten_replicate_single {α : Type} (x : α) : ∀ n : Nat, (List.replicate n [x]).flatten = List.replicate n x
